@@ -247,9 +247,13 @@ func prelude(t *testing.T, sizes []int) {
 // a small parent column and above one: tens of thousands of result groups.
 func bigGroups(t *testing.T, n int) {
 	spec := gen.DataSpec{Recipe: &gen.Recipe{N: n, Cols: []gen.ColSpec{
-		{Name: "g", Kind: gen.KMod, K: 3, Prefix: "p"}, {Name: "u", Prefix: "r", Kind: gen.KUnique}}}}
+		{Name: "g", Kind: gen.KMod, K: 2, Prefix: "p"}, {Name: "u", Prefix: "r", Kind: gen.KUnique}}}}
 	taut := model.Not(model.Eq("g", "none"))
 	run(t, &Case{Data: spec, Queries: []Q{{taut, []string{"u"}}, {taut, []string{"g", "u"}}, {taut, []string{"u", "g"}}, {model.Eq("g", "p1"), []string{"u"}}}})
+	// few groups of more than 65,536 rows each (counts beyond 16 bits)
+	spec2 := gen.DataSpec{Recipe: &gen.Recipe{N: 2 * n, Cols: []gen.ColSpec{
+		{Name: "g", Kind: gen.KMod, K: 2, Prefix: "p"}, {Name: "h", Kind: gen.KDiv, K: n}}}}
+	run(t, &Case{Data: spec2, Queries: []Q{{taut, []string{"g"}}, {taut, []string{"h", "g"}}, {model.Eq("h", "1"), []string{"g", "h"}}}})
 }
 
 // bound trims a group-by list so that the nested refinement the index has to
